@@ -113,6 +113,11 @@ func outputTupleDir(v rel.Value, dir string, fs afero.Fs, dryRun bool) error {
 			return fmt.Errorf("dir output dict key must be a non-empty string")
 		}
 		subpath := path.Join(dir, name.String())
+		// the key must name something inside dir: resolving it with dir as the root
+		// (where ".." cannot climb any further) has to give the same path, and not dir itself
+		if inside := path.Join("/", name.String()); inside == "/" || subpath != path.Join(dir, "."+inside) {
+			return fmt.Errorf("dir output dict key %q does not name an entry inside %s", name.String(), dir)
+		}
 		switch content := v.(type) {
 		case rel.Tuple:
 			if err := configureOutput(content, subpath, fs, dryRun); err != nil {
